@@ -22,6 +22,7 @@ package mcp
 
 import (
 	"context"
+	"encoding/json"
 	"errors"
 	"fmt"
 	"io"
@@ -545,6 +546,146 @@ func (f *canFaultRT) RoundTrip(req *http.Request) (*http.Response, error) {
 }
 
 // ---------------------------------------------------------------------------------------------
+// A FOREIGN streamable server (transport fj), scripted as an http.RoundTripper: it answers every call with
+// `200 application/json`, sending the status line and headers at once and the body only when the "handler" is
+// done (released, cancelled by a notifications/cancelled naming the request, or after d ms) — what an HTTP server
+// that flushes early does.  While the client is reading such a body the caller may cancel the call: as with
+// net/http, the read then fails with the context's error.
+
+type canForeign struct {
+	h   *canH
+	mu  sync.Mutex
+	can map[string]chan struct{} // request id (raw JSON) -> closed when a cancel notice named it
+	tag map[string]int
+}
+
+type canForeignBody struct {
+	ctx   context.Context
+	ready chan struct{}
+	data  *strings.Reader
+}
+
+func (b *canForeignBody) Read(p []byte) (int, error) {
+	select {
+	case <-b.ready:
+		return b.data.Read(p)
+	case <-b.ctx.Done():
+		return 0, b.ctx.Err()
+	}
+}
+func (b *canForeignBody) Close() error { return nil }
+
+func (f *canForeign) resp(req *http.Request, code int, ct string, body io.ReadCloser) *http.Response {
+	hd := http.Header{}
+	if ct != "" {
+		hd.Set("Content-Type", ct)
+	}
+	hd.Set(sessionIDHeader, "foreign-1")
+	return &http.Response{Status: strconv.Itoa(code) + " " + http.StatusText(code), StatusCode: code, Proto: "HTTP/1.1", ProtoMajor: 1, ProtoMinor: 1,
+		Header: hd, Body: body, ContentLength: -1, Request: req}
+}
+
+func (f *canForeign) RoundTrip(req *http.Request) (*http.Response, error) {
+	if req.Method != http.MethodPost {
+		if req.Body != nil {
+			req.Body.Close()
+		}
+		code := http.StatusMethodNotAllowed
+		if req.Method == http.MethodDelete {
+			code = http.StatusNoContent
+		}
+		return f.resp(req, code, "", io.NopCloser(strings.NewReader(""))), nil
+	}
+	raw, _ := io.ReadAll(req.Body)
+	req.Body.Close()
+	var msg struct {
+		ID     json.RawMessage `json:"id"`
+		Method string          `json:"method"`
+		Params struct {
+			ProtocolVersion string          `json:"protocolVersion"`
+			RequestID       json.RawMessage `json:"requestId"`
+			Meta            map[string]any  `json:"_meta"`
+		} `json:"params"`
+	}
+	if err := json.Unmarshal(raw, &msg); err != nil {
+		return f.resp(req, http.StatusBadRequest, "", io.NopCloser(strings.NewReader("bad json"))), nil
+	}
+	now := func(body string) io.ReadCloser { return io.NopCloser(strings.NewReader(body)) }
+	if len(msg.ID) == 0 { // a notification
+		if msg.Method == notificationCancelled {
+			f.mu.Lock()
+			ch, tag := f.can[string(msg.Params.RequestID)], f.tag[string(msg.Params.RequestID)]
+			delete(f.can, string(msg.Params.RequestID))
+			f.mu.Unlock()
+			if ch != nil {
+				f.h.mu.Lock()
+				if !f.h.finished[tag] && !f.h.hcSeen[tag] {
+					f.h.hcSeen[tag] = true
+					f.h.evs = append(f.h.evs, canEv{"hc", tag, "c", time.Since(f.h.t0).Milliseconds()})
+				}
+				f.h.mu.Unlock()
+				close(ch)
+			}
+		}
+		return f.resp(req, http.StatusAccepted, "", now("")), nil
+	}
+	switch msg.Method {
+	case methodInitialize:
+		return f.resp(req, http.StatusOK, "application/json", now(fmt.Sprintf(
+			`{"jsonrpc":"2.0","id":%s,"result":{"protocolVersion":%q,"capabilities":{"tools":{}},"serverInfo":{"name":"foreign","version":"1"}}}`,
+			msg.ID, msg.Params.ProtocolVersion))), nil
+	case methodPing, methodCallTool:
+	default:
+		return f.resp(req, http.StatusOK, "application/json", now(fmt.Sprintf(
+			`{"jsonrpc":"2.0","id":%s,"error":{"code":-32601,"message":"method not found"}}`, msg.ID))), nil
+	}
+	tag, ok := canTagOf(msg.Params.Meta)
+	k, known := f.h.spec(tag)
+	result := `{}`
+	if msg.Method == methodCallTool {
+		result = fmt.Sprintf(`{"content":[{"type":"text","text":"ok"}],"_meta":{"vtag":%d}}`, tag)
+	}
+	answer := fmt.Sprintf(`{"jsonrpc":"2.0","id":%s,"result":%s}`, msg.ID, result)
+	if !ok || !known {
+		return f.resp(req, http.StatusOK, "application/json", now(answer)), nil
+	}
+	cancelled := make(chan struct{})
+	f.mu.Lock()
+	f.can[string(msg.ID)], f.tag[string(msg.ID)] = cancelled, tag
+	f.mu.Unlock()
+	f.h.mu.Lock()
+	f.h.nbeg[tag]++
+	rel := f.h.release[tag]
+	f.h.mu.Unlock()
+	f.h.log("beg", tag, "")
+	body := &canForeignBody{ctx: req.Context(), ready: make(chan struct{})}
+	go func() { // the "handler"
+		switch k.mode {
+		case "park":
+			select {
+			case <-cancelled:
+				answer = fmt.Sprintf(`{"jsonrpc":"2.0","id":%s,"error":{"code":-32800,"message":"request cancelled"}}`, msg.ID)
+			case <-rel:
+			}
+		case "deaf":
+			<-rel
+		default:
+			if k.d > 0 {
+				time.Sleep(time.Duration(k.d) * time.Millisecond)
+			}
+		}
+		f.h.mu.Lock()
+		f.h.finished[tag] = true
+		f.h.evs = append(f.h.evs, canEv{"fin", tag, "", time.Since(f.h.t0).Milliseconds()})
+		f.h.mu.Unlock()
+		body.data = strings.NewReader(answer)
+		close(body.ready)
+	}()
+	// status line and headers now, the body when the handler is done
+	return f.resp(req, http.StatusOK, "application/json", body), nil
+}
+
+// ---------------------------------------------------------------------------------------------
 
 func canRunCase(t *testing.T, out *verifOut, id string, c *canCase) {
 	var recs [][3]string
@@ -624,6 +765,9 @@ func canRunCase(t *testing.T, out *verifOut, id string, c *canCase) {
 				status = "connect-fail"
 			}
 			ct = &canFaultTransport{&IOTransport{Reader: r2, Writer: w1}, h, "client"}
+		case "fj":
+			ct = &StreamableClientTransport{Endpoint: url, DisableStandaloneSSE: true,
+				HTTPClient: &http.Client{Transport: &canForeign{h: h, can: map[string]chan struct{}{}, tag: map[string]int{}}}}
 		case "sse":
 			hd := NewSSEHandler(getServer, nil)
 			ct = &SSEClientTransport{Endpoint: url, HTTPClient: &http.Client{Transport: &canFaultRT{&ordRT{hd}, h}}}
@@ -749,9 +893,10 @@ var canLegacy = []string{protocolVersion20251125, protocolVersion20250618, proto
 
 // slp, sljp: stateless with StreamableHTTPOptions.PropagateRequestCancellation and protocol 2026-07-28 (the
 // configuration in which the SDK ties a handler's context to its HTTP request).
-var canTransports = []string{"mem", "io", "sse", "sh", "shn", "shj", "she", "shen", "shje", "sl", "slj", "slp", "sljp"}
+// fj: the SDK's streamable client against a FOREIGN server that answers calls with application/json, headers first.
+var canTransports = []string{"mem", "io", "sse", "sh", "shn", "shj", "she", "shen", "shje", "sl", "slj", "slp", "sljp", "fj"}
 
-func canStateless(tr string) bool    { return strings.HasPrefix(tr, "sl") }
+func canStateless(tr string) bool    { return strings.HasPrefix(tr, "sl") || tr == "fj" } // no server→client calls, no shared dispatcher
 func canStreamable(tr string) bool   { return strings.HasPrefix(tr, "sh") || strings.HasPrefix(tr, "sl") }
 func canNoStandalone(tr string) bool { return strings.HasPrefix(tr, "sh") && strings.Contains(tr[2:], "n") }
 func canJSON(tr string) bool         { return canStreamable(tr) && strings.Contains(tr[2:], "j") }
@@ -763,7 +908,7 @@ func canJSON(tr string) bool         { return canStreamable(tr) && strings.Conta
 // victim of a faulted cancellation is a client→server call.
 func canGen(rng *rand.Rand, tr string) *canCase {
 	c := &canCase{tr: tr, pv: canLegacy[rng.Intn(len(canLegacy))], fault: "none"}
-	isNew := canStateless(tr) && strings.Contains(tr[2:], "p")
+	isNew := strings.HasPrefix(tr, "sl") && strings.Contains(tr[2:], "p")
 	if isNew {
 		c.pv = protocolVersion20260728
 	}
